@@ -210,7 +210,10 @@ Example separation_nonvacuous :
   let H := fun (_ : nat) (m : bytes) => m in
   H_inj H 28 /\ script_wf (SNative (NAll [NBefore 7])) /\ script_wf (SPlutus V2 [x4d; x01])
   /\ script_hash H (SPlutus V2 [x4d; x01]) <> script_hash H (SPlutus V3 [x4d; x01]).
-Proof. cbn. repeat split; try lia; try (intros a b E; exact E); try discriminate. reflexivity. Qed.
+Proof.
+  intros H. split; [intros a b E; exact E|]. split; [cbn; unfold two64; repeat split; lia|].
+  split; [exact I|]. cbv. discriminate.
+Qed.
 
 (* ------------------------------------------------------------------------------------------ *)
 (* the transaction id binds the body                                                          *)
